@@ -234,6 +234,30 @@ def check_seeds(ctx, rng, td, start=None, file_seed=None, stale=False, n=None):
     ctx.coverage["distinct_nontrivial"] += 1
 
 
+def jitter_across_processes(ctx, rng, td):
+    """`eudoxia tools jitter` with the same seed gives the same file in another interpreter process, whatever its PYTHONHASHSEED"""
+    import subprocess
+    from common import PY
+    rows, _ = make_rows(rng, 10, 8)
+    fin = os.path.join(td, "xin.csv")
+    write_csv(fin, rows)
+    outs = []
+    for hs in ("1", "2", "3"):
+        fo = os.path.join(td, f"x{hs}.csv")
+        env = dict(os.environ, PYTHONHASHSEED=hs, PYTHONPATH=REPO)
+        r = subprocess.run([PY, "-m", "eudoxia", "tools", "jitter", fin, fo, "0.5", "-s", "7", "-f"], capture_output=True, text=True, env=env, timeout=300)
+        if r.returncode != 0:
+            ctx.assumptions.append("jitter across processes not run: " + r.stderr[-200:])
+            return
+        outs.append(open(fo).read())
+    ctx.coverage["evaluations"] += 1
+    ctx.sit("jitter_runs_in_three_processes")
+    if len(set(outs)) != 1:
+        return viol(ctx, "jitter-reproducible", "jitter with the same seed gives different files in different interpreter processes (PYTHONHASHSEED 1, 2, 3)",
+                    {"rows": rows, "delta": 0.5, "seed": 7})
+    ctx.coverage["distinct_nontrivial"] += 1
+
+
 def run(ctx):
     rng = random.Random(ctx.seed)
     drv = Driver()
@@ -243,6 +267,7 @@ def run(ctx):
                 check_snap(ctx, drv, rng, td)
             for i in range(100 if ctx.quick() else 1000):
                 check_jitter(ctx, drv, rng, td)
+            jitter_across_processes(ctx, random.Random(ctx.seed + 5), td)
             check_seeds(ctx, rng, td, start=0, file_seed=1)
             check_seeds(ctx, rng, td, start=0)
             check_seeds(ctx, rng, td, start=41, file_seed=42)
